@@ -34,6 +34,19 @@ func runC04(c *Ctx) {
 
 // saltMatch value: a boolean phi fed by comparisons against the LTX header's WAL salts.
 func isSaltMatch(v ssa.Value) bool {
+	// handed to an extracted helper as a parameter: every call site passes the salt-match value
+	if p, isP := v.(*ssa.Parameter); isP {
+		more := paramOrigins(p, 0)
+		if len(more) == 0 {
+			return false
+		}
+		for _, m := range more {
+			if _, again := m.(*ssa.Parameter); again || !isSaltMatch(m) {
+				return false
+			}
+		}
+		return true
+	}
 	phi, ok := v.(*ssa.Phi)
 	if !ok || phi.Type().String() != "bool" {
 		return false
@@ -57,14 +70,15 @@ func c04DefaultDeny(c *Ctx) {
 	name := fnName(fn)
 	var stTrue []*ssa.Store
 	var stFalse []*ssa.Store
-	for _, st := range storesToField(fn, "syncInfo.snapshotting") {
+	for _, st := range storesToFieldDeep(fn, "syncInfo.snapshotting") {
 		if vConstBool(true)(st.Val) {
 			stTrue = append(stTrue, st)
 		} else {
 			stFalse = append(stFalse, st)
 		}
 	}
-	c.floor(rule, len(stFalse), 4, "stores of snapshotting=false")
+	// (4 on the reference tree; identical branches may be merged into a helper)
+	c.floor(rule, len(stFalse), 2, "stores of snapshotting=false")
 	// default: set true in the entry block before anything else can return
 	okDef := false
 	for _, st := range stTrue {
@@ -172,7 +186,7 @@ func c04DefaultDeny(c *Ctx) {
 		found := false
 		for _, call := range calls(fn) {
 			if nm := calleeName(call); nm == "ls.readWALFileAt" {
-				off := call.Common().Args[1]
+				off := refArgs(call)[1]
 				if vFieldLoad("syncInfo.offset", nil)(off) && !vBinOp(token.SUB, vAny(), vAny(), false)(off) {
 					found = true
 				}
@@ -182,7 +196,7 @@ func c04DefaultDeny(c *Ctx) {
 			"on a WAL restart the decision to continue incrementally never looks at the WAL at or beyond the old cursor: frames the previous generation appended after the last sync are lost")
 	} else {
 		for _, call := range calls5 {
-			a := call.Common().Args
+			a := refArgs(call)
 			// the old cursor and both previous-generation salt words are handed over
 			// (positionally, or bundled in an array literal)
 			var leaves []ssa.Value
@@ -243,7 +257,7 @@ func c04DefaultDeny(c *Ctx) {
 				c.check(ok, rule5, fnName(h)+": verdict = frame salts at offset equal the previous generation's salts", c.pos(r), "comparison", "unexpected verdict expression")
 			}
 			for _, rd := range callsTo(h, nameIs("ls.readWALFileAt")) {
-				c.check(vParam("offset")(rd.Common().Args[1]), rule5, fnName(h)+": reads the frame header at the given offset", c.pos(rd), "offset parameter", "reads elsewhere")
+				c.check(vParam("offset")(refArgs(rd)[1]), rule5, fnName(h)+": reads the frame header at the given offset", c.pos(rd), "offset parameter", "reads elsewhere")
 			}
 			c.floor(rule5, len(factEdges(h, cmpFact(vCallResult(nameHasSuffix(".Size")), token.LSS, vBinOp(token.ADD, vParam("offset"), vAny(), true), ""))), 1, "bounds check (no frame at the cursor)")
 		}
@@ -268,13 +282,13 @@ func c04Helpers(c *Ctx) {
 		}
 		c.floor(rule, n, 1, "return true in lastPageMatch")
 		for _, rd := range callsTo(fn, nameIs("ls.readWALFileAt")) {
-			a := rd.Common().Args
+			a := refArgs(rd)
 			c.check(vParam("prevWALOffset")(a[1]) && vParam("frameSize")(a[2]), rule, fnName(fn)+": reads exactly one frame at prevWALOffset", c.pos(rd), "provenance matches", "reads the wrong frame")
 		}
 	}
 	if fn := c.fn(rule, "(*ls.DB).verifyWithExecutor"); fn != nil {
 		for _, call := range callsTo(fn, nameIs("(*ls.DB).lastPageMatch")) {
-			a := call.Common().Args
+			a := refArgs(call)
 			ok := vBinOp(token.SUB, vFieldLoad("syncInfo.offset", nil), vAny(), false)(a[3])
 			c.check(ok, rule, fnName(fn)+": last page is the frame just before the cursor (info.offset - frameSize)", c.pos(call), "provenance matches", "wrong frame compared")
 		}
@@ -290,7 +304,7 @@ func c04Helpers(c *Ctx) {
 		c.floor(rule, n, 1, "cursor assignment")
 		// the LTX file examined is the one at exec.pos
 		for _, lp := range callsTo(fn, nameIs("(*ls.DB).LTXPath")) {
-			a := lp.Common().Args
+			a := refArgs(lp)
 			pos := vFieldPath("syncExecutor.pos", "Pos.TXID")
 			c.check(vConstInt(0)(a[1]) && pos(a[2]) && pos(a[3]), rule, fnName(fn)+": examines the L0 file at the executor's position", c.pos(lp), "LTXPath(0, pos, pos)", "wrong file")
 		}
@@ -324,7 +338,7 @@ func c04Helpers(c *Ctx) {
 		for _, d := range calls(fn) {
 			if calleeName(d) == "builtin:delete" {
 				// key ranges over knownSalts
-				key := d.Common().Args[1]
+				key := refArgs(d)[1]
 				ok := false
 				for _, o := range origins(key) {
 					if u, isU := o.(*ssa.UnOp); isU {
@@ -343,7 +357,7 @@ func c04Helpers(c *Ctx) {
 			// scan stops at the LAST element, which must be the generation litestream already
 			// copied (stopping at the current generation would end the scan at the first frame
 			// and no intermediate generation could ever be seen)
-			pairs := saltPairsLiteral(call.Common().Args[2])
+			pairs := saltPairsLiteral(refArgs(call)[2])
 			okK := len(pairs) >= 2
 			if okK {
 				last := pairs[len(pairs)-1]
@@ -360,7 +374,7 @@ func c04Helpers(c *Ctx) {
 		for _, call := range callsTo(fn, nameIs("(*ls.WALReader).FrameSaltsUntil")) {
 			// stop salt = knownSalts[len(knownSalts)-1]
 			ok := false
-			for _, o := range origins(call.Common().Args[2]) {
+			for _, o := range origins(refArgs(call)[2]) {
 				if u, isU := o.(*ssa.UnOp); isU {
 					if ia, isIA := u.X.(*ssa.IndexAddr); isIA && vParam("knownSalts")(ia.X) && isLenMinusOne(ia.Index, ia.X) {
 						ok = true
@@ -581,7 +595,7 @@ func c04Behind(c *Ctx) {
 	for _, call := range callsTo(fn, nameIs("(*ls.Replica).MaxLTXFileInfo")) {
 		okF, why := failStopOK(fn, call)
 		c.check(okF, rule, name+": a failed remote listing is an error (never 'replica empty')", c.pos(call), "fail-stop", why)
-		c.check(vConstInt(0)(call.Common().Args[2]), rule, name+": compares against the replica's level-0 maximum", c.pos(call), "level 0", "wrong level")
+		c.check(vConstInt(0)(refArgs(call)[2]), rule, name+": compares against the replica's level-0 maximum", c.pos(call), "level 0", "wrong level")
 		info := resultOf(call, 0)
 		// "nothing to do" returns: replica empty or database not behind
 		for _, r := range successReturns(fn) {
@@ -623,7 +637,7 @@ func c04Behind(c *Ctx) {
 		}
 		for _, vo := range callSitesV(fn, nameHasSuffix(".OpenLTXFile")) {
 			o := vo.Call()
-			a := o.Common().Args
+			a := refArgs(o)
 			ok := vConstInt(0)(a[1]) && vFieldLoad("FileInfo.MinTXID", vIs(info))(a[2]) && vFieldLoad("FileInfo.MaxTXID", vIs(info))(a[3])
 			c.check(ok, rule, name+": fetches the replica's newest L0 file", c.pos(o), "OpenLTXFile(0, info.MinTXID, info.MaxTXID)", "fetches another file")
 		}
